@@ -1,5 +1,5 @@
 """C10 — cryptographic results (DESIGN.md §3 C10; very narrow: acceptance discipline and the DH length idiom only)."""
-import re
+import os, re
 from engine.rulelib import *
 from rules.c16 import outcomes, fact_of
 
@@ -284,15 +284,29 @@ def r3_stripped_length(ctx, configs, rule_id='C10.R3'):
                 continue
 
             # (i) size of the ByteString given to setKeyBits
+            # the sink: setKeyBits(x) here, or a file-local helper that is handed the secret and does it (x = the ByteString argument forwarded to setKeyBits there)
+            helper_arg = {}
+            for c in calls(f['body']):
+                if c.get('callee') and '::' not in c['callee'] and c.get('args'):
+                    for g in prog.fns(c['callee']):
+                        if os.path.basename(g['file']) != os.path.basename(f['file']):
+                            continue
+                        pn = [pp['var']['name'] if pp.get('var') else None for pp in g.get('params', [])]
+                        for k2 in calls(g['body'], short='setKeyBits'):
+                            if k2.get('args') and k2['args'][0].get('k') == 'Var' and k2['args'][0]['name'] in pn:
+                                helper_arg[c['callee']] = pn.index(k2['args'][0]['name'])
+            def is_sink(e):
+                return e.get('k') == 'Call' and (short(e.get('callee')) == 'setKeyBits' or e.get('callee') in helper_arg)
+
             def trig(e, st):
-                return ('setKeyBits', e['l']) if e.get('k') == 'Call' and short(e.get('callee')) == 'setKeyBits' else None
+                return ('setKeyBits', e['l']) if is_sink(e) else None
             sf = SiteFacts(f, prog, trigger=trig).go()
             r.paths += sf.paths_returned
             bad = None
             nsites = 0
             for (_, line), hits in sorted(sf.sites.items()):
-                c = [c for c in calls(f['body'], short='setKeyBits') if c['l'] == line][0]
-                arg = canon(c['args'][0])
+                c = [c for c in calls(f['body']) if is_sink(c) and c['l'] == line][0]
+                arg = canon(c['args'][helper_arg.get(c.get('callee'), 0)])
                 for h in hits:
                     nsites += 1
                     sz = h['env'].get('size(%s)' % arg)
